@@ -52,10 +52,39 @@ def fam_core(seed, i):
     return sc
 
 
+def life_last_drop_while_busy(sc, rng):
+    """The last strong handle goes away while a handler is running (the loop itself must not count as one): from that
+    moment every weak handle fails to upgrade, for ever; what was accepted is still handled, then the actor stops (C05)."""
+    cfg = {"cap": rng.choice([-1, -1, 2]), "pscr": [Y] * rng.choice([0, 1]), "sscr": [[Y] * rng.choice([0, 1])], "owning": False}
+    wk = rng.choice(["waddr", "wsender", "wcaller"])
+    main = [{"op": "spawn", "a": "a1", "nh": "h0", "cfg": cfg, "entry": rng.choice(["builder", "plain"])},
+            {"op": {"waddr": "downgrade", "wsender": "weak_sender", "wcaller": "weak_caller"}[wk], "h": "h0", "nh": "w", "to": "c1"},
+            {"op": "clone", "h": "h0", "nh": "h", "to": "c1"}, {"op": "drop", "h": "h0"}]
+    sc["clients"]["main"] = main
+    c1 = [{"op": "send", "h": "h", "scr": [Y] * rng.randint(2, 4)}]
+    if rng.random() < 0.5:
+        c1.append({"op": "send", "h": "h", "scr": [Y] * rng.choice([0, 1])})
+    c1 += [{"op": "yield"}] * rng.randint(1, 2)
+    c1.append({"op": "drop", "h": "h"})
+    for k in range(rng.randint(1, 3)):
+        c1.append({"op": "upgrade", "h": "w", "nh": f"u{k}", "to": "c1"})
+        if wk == "wsender":
+            c1.append({"op": rng.choice(["send", "force_send"]), "h": "w", "scr": []})
+        elif wk == "wcaller":
+            c1.append({"op": "call", "h": "w", "scr": []})
+        else:
+            c1.append({"op": rng.choice(["stopped", "try_stop"]), "h": "w"})
+        c1 += [{"op": "yield"}] * rng.randint(0, 2)
+    sc["clients"]["c1"] = c1
+    return sc
+
+
 def fam_life(seed, i):
     """C03 C04 C05 C14 C15 C17: handle algebra, stop entry points, awaiters, join/consume/detach, queries."""
     rng = random.Random(f"life-{seed}-{i}")
     sc = base("life", seed, i, rng)
+    if rng.random() < 0.1:
+        return life_last_drop_while_busy(sc, rng)
     owning = rng.random() < 0.5
     cfg = {"cap": rng.choice([-1, -1, 0, 1, 2]), "pscr": [Y] * rng.choice([0, 1, 2]), "sscr": [[Y] * rng.choice([0, 1, 1, 2, 3])], "owning": owning}
     ncl = rng.randint(1, 4)
